@@ -7,8 +7,17 @@
 //   NSQ_VERIF_SCRIPT  path of the JSON script (options + events)
 //   NSQ_VERIF_MARKER  path of the marker file: one JSON line per injected event,
 //                     per FIN/REQ/TOUCH seen by the recording MessageDelegate and per
-//                     log line, each written with its own write(2) so that an outside
+//                     log line, each written with its own pwrite64(2) so that an outside
 //                     syscall tracer sees them in order with the logger's file I/O.
+//
+// Fault injection from outside (strace -e inject=<syscall>:error=..:when=N fails the N-th
+// such call of EVERY thread, counted per thread): the router goroutine is locked to its own
+// OS thread (its id is announced in a ROUTER marker line) and, when the script says
+// "pad": {"sys": S, "n": P}, first burns P failing dummy calls of S, so that the router's own
+// calls of S are number P+1, P+2, ... of that thread and no other thread ever gets that far.
+// The marker lines use pwrite64 (never a target), the driver waits with nanosleep(2) (no
+// runtime timers, hence no eventfd writes), and its own file operations (script, marker,
+// touch) are retried when they fail.
 //
 // NSQ_VERIF_DRIVER=strftime instead evaluates the real strftime() on a list of
 // (format, unix-seconds) pairs (UTC) and prints the renderings.
@@ -23,6 +32,7 @@ import (
 	"runtime"
 	"strings"
 	"sync"
+	"syscall"
 	"time"
 
 	"github.com/nsqio/go-nsq"
@@ -55,19 +65,70 @@ type verifEvent struct {
 type verifScript struct {
 	Opts   verifOpts    `json:"opts"`
 	Events []verifEvent `json:"events"`
+	Pad    *struct {
+		Sys string `json:"sys"`
+		N   int    `json:"n"`
+	} `json:"pad,omitempty"`
+}
+
+// verifPad makes n dummy calls (all fail at once: bad descriptor / empty path) of one system call.
+func verifPad(sys string, n int) {
+	for i := 0; i < n; i++ {
+		switch sys {
+		case "write":
+			syscall.Write(-1, nil)
+		case "fsync":
+			syscall.Fsync(-1)
+		case "close":
+			syscall.Close(-1)
+		case "linkat":
+			syscall.Link("", "")
+		case "unlinkat":
+			syscall.Unlink("")
+		case "openat":
+			syscall.Open("", syscall.O_RDONLY, 0)
+		}
+	}
+}
+
+func verifNap(d time.Duration) {
+	end := time.Now().Add(d)
+	for left := d; left > 0; left = time.Until(end) { // a signal (Go's preemption) cuts nanosleep short
+		ts := syscall.NsecToTimespec(int64(left))
+		syscall.Nanosleep(&ts, nil)
+	}
 }
 
 type verifMarker struct {
-	mu sync.Mutex
-	f  *os.File
+	mu  sync.Mutex
+	f   *os.File
+	off int64
 }
 
 func (m *verifMarker) emit(v map[string]interface{}) {
 	b, _ := json.Marshal(v)
 	b = append(b, '\n')
 	m.mu.Lock()
-	m.f.Write(b)
+	for try := 0; len(b) > 0 && try < 8; try++ {
+		n, _ := syscall.Pwrite(int(m.f.Fd()), b, m.off)
+		if n > 0 {
+			m.off += int64(n)
+			b = b[n:]
+		}
+	}
 	m.mu.Unlock()
+}
+
+// verifRetry repeats one of the driver's own file operations that an outside fault
+// injector may have hit (it fails a given call once).
+func verifRetry(op func() error) error {
+	var err error
+	for try := 0; try < 4; try++ {
+		if err = op(); err == nil || os.IsExist(err) { // (EEXIST is an answer, not an injected failure)
+			return err
+		}
+	}
+	return err
 }
 
 type verifDelegate struct{ mk *verifMarker }
@@ -139,7 +200,8 @@ func verifRunScript() {
 		fmt.Fprintf(os.Stderr, "verif: "+format+"\n", a...)
 		os.Exit(3)
 	}
-	raw, err := os.ReadFile(os.Getenv("NSQ_VERIF_SCRIPT"))
+	var raw []byte
+	err := verifRetry(func() (e error) { raw, e = os.ReadFile(os.Getenv("NSQ_VERIF_SCRIPT")); return })
 	if err != nil {
 		fail("script: %v", err)
 	}
@@ -147,7 +209,11 @@ func verifRunScript() {
 	if err := json.Unmarshal(raw, &sc); err != nil {
 		fail("script: %v", err)
 	}
-	mf, err := os.OpenFile(os.Getenv("NSQ_VERIF_MARKER"), os.O_WRONLY|os.O_CREATE|os.O_APPEND, 0o644)
+	var mf *os.File
+	err = verifRetry(func() (e error) {
+		mf, e = os.OpenFile(os.Getenv("NSQ_VERIF_MARKER"), os.O_WRONLY|os.O_CREATE|os.O_TRUNC, 0o644)
+		return
+	})
 	if err != nil {
 		fail("marker: %v", err)
 	}
@@ -196,6 +262,11 @@ func verifRunScript() {
 
 	done := make(chan struct{})
 	go func() {
+		runtime.LockOSThread() // every system call of router() is made by this one thread
+		if sc.Pad != nil {
+			verifPad(sc.Pad.Sys, sc.Pad.N)
+		}
+		mk.emit(map[string]interface{}{"m": "ROUTER", "tid": syscall.Gettid()})
 		f.router()
 		close(done)
 	}()
@@ -212,7 +283,7 @@ func verifRunScript() {
 			if len(f.logChan) == 0 && verifRouterState() == "select" {
 				return
 			}
-			time.Sleep(200 * time.Microsecond)
+			verifNap(200 * time.Microsecond)
 		}
 	}
 	clock := func() (int64, string, int64) {
@@ -248,7 +319,7 @@ func verifRunScript() {
 			<-done
 			gone = true
 		case "sleep":
-			time.Sleep(time.Duration(ev.Ms) * time.Millisecond)
+			verifNap(time.Duration(ev.Ms) * time.Millisecond)
 		case "touch":
 			// another process creates (exclusively) the output-dir file with revision
 			// ev.ID of the current file name while the router is idle
@@ -256,10 +327,11 @@ func verifRunScript() {
 			name := strings.Replace(f.currentFilename(), "<REV>", fmt.Sprintf("-%06d", ev.ID), -1)
 			p := filepath.Join(opts.OutputDir, name)
 			mk.emit(map[string]interface{}{"m": "TOUCHING", "i": i, "path": p})
-			tf, err := os.OpenFile(p, os.O_WRONLY|os.O_CREATE|os.O_EXCL, 0o644)
+			var tf *os.File
+			err := verifRetry(func() (e error) { tf, e = os.OpenFile(p, os.O_WRONLY|os.O_CREATE|os.O_EXCL, 0o644); return })
 			if err == nil {
-				tf.Write(body)
-				tf.Sync()
+				verifRetry(func() error { _, e := tf.Write(body); return e })
+				verifRetry(tf.Sync)
 				tf.Close()
 			}
 			mk.emit(map[string]interface{}{"m": "TOUCHED", "i": i, "name": name, "ok": err == nil})
